@@ -115,3 +115,21 @@ impl BaseUnit {
         unimplemented!()
     }
 }
+
+/// str::to_owned / to_string (N11)
+#[verifier::external_body]
+pub fn vx_str_to_owned(s: &str) -> (r: String)
+    ensures
+        r@ == s@,
+{
+    s.to_owned()
+}
+
+/// String::to_string / clone (N11)
+#[verifier::external_body]
+pub fn vx_string_clone(s: &String) -> (r: String)
+    ensures
+        r@ == s@,
+{
+    s.clone()
+}
